@@ -36,6 +36,25 @@ def gen_scenarios(rng, n, spin):
     return scens
 
 
+def exhaustive_scenarios(polys, spin):
+    """one real constraint call for EVERY polynomial of the TLC-emitted universe x six relations x log_trick both ways
+    (computed bounds) - the same universe the design-level check MCConstraints explores"""
+    scens = []
+    labels = ["x", (1, 2), 3]
+    for p in polys:
+        P = {tuple({"L0": labels[0], "L1": labels[1]}[n] for n in k): c for k, c in p.items()}
+        if not P:
+            continue
+        for rel in cs.RELS:
+            for lt in (True, False):
+                if not lt and sum(abs(c) for k, c in P.items() if k) * (2 if spin else 1) > 8:
+                    continue          # unary slack would need more ancillas than the truth-table clauses enumerate
+                scens.append({"labels": labels, "steps": [{"mode": "cmp", "P": P, "rel": rel, "lam": 2, "lt": lt, "bounds": None,
+                                                           "bounds_rec": [cs.NOBOUND, cs.NOBOUND], "bkind": "none"}],
+                              "objective": None, "arg_form": "dict"})
+    return scens
+
+
 def run_scenarios(scens, spin):
     recs, owners = [], []
     for si, sc in enumerate(scens):
@@ -88,7 +107,12 @@ def run_generic(tier, out, spin, design_cfgs, tag, replay=None):
                 out.set("spec_design_" + cfgname[:-4], {"distinct": r.distinct})
                 if not r.ok:
                     out.violation("spec:" + ",".join(r.violated), "spec-level %s %s" % (cfgname, ",".join(r.violated)), r.stdout[-2500:])
-        scens = gen_scenarios(rng, 4000 if thorough else 450, spin)
+        from . import pure
+        polys, udesc = pure.universe("2f" if thorough else "2s", wd)
+        ex = exhaustive_scenarios(polys, spin)
+        out.set("exhaustive_universe", udesc)
+        out.set("exhaustive_scenarios", len(ex))
+        scens = ex + gen_scenarios(rng, 4000 if thorough else 450, spin)
         if replay:
             want = json.load(open(replay))["record"]["seed_scenario"]
             scens = [scens[want]]
